@@ -139,7 +139,9 @@ func Run() int {
 
 	// Worker 1: current tree + accessors to all package-level variables.
 	d1 := filepath.Join(scratch, "o1")
-	os.MkdirAll(filepath.Join(d1, "bin"), 0o755)
+	bindir := filepath.Join(scratch, "bin") // one directory for both workers: the std library is found next to the executable
+	os.MkdirAll(bindir, 0o755)
+	os.MkdirAll(d1, 0o755)
 	o1, err := ovl.New(d1)
 	if err != nil {
 		fmt.Fprintln(os.Stderr, "C14: HARNESS ERROR:", err)
@@ -148,19 +150,19 @@ func Run() int {
 	vars, err := genStateAccessors(o1, pkgs)
 	globalsNote := "package-level variables of all linked repository packages are dumped through generated accessors"
 	if err == nil {
-		err = o1.Build("verif/c14/cmd", filepath.Join(d1, "bin", "c14w"))
+		err = o1.Build("verif/c14/cmd", filepath.Join(bindir, "c14w-plain"))
 	}
 	if err != nil {
 		globalsNote = "accessor overlay could not be built (" + clip(err.Error(), 200) + "); only the transpiler value is dumped"
 		o1, _ = ovl.New(d1)
-		if err := o1.Build("verif/c14/cmd", filepath.Join(d1, "bin", "c14w")); err != nil {
+		if err := o1.Build("verif/c14/cmd", filepath.Join(bindir, "c14w-plain")); err != nil {
 			fmt.Fprintln(os.Stderr, "C14: HARNESS ERROR: cannot build the worker from the current tree:", err)
 			return 2
 		}
 	}
 	// Worker 2: current tree with every range over a map rewritten to the seam.
 	d2 := filepath.Join(scratch, "o2")
-	os.MkdirAll(filepath.Join(d2, "bin"), 0o755)
+	os.MkdirAll(d2, 0o755)
 	o2, err := ovl.New(d2)
 	if err != nil {
 		fmt.Fprintln(os.Stderr, "C14: HARNESS ERROR:", err)
@@ -171,22 +173,24 @@ func Run() int {
 		fmt.Fprintln(os.Stderr, "C14: HARNESS ERROR: the map-order seam cannot be generated for the current tree:", err)
 		return 2
 	}
-	if err := o2.Build("verif/c14/cmd", filepath.Join(d2, "bin", "c14w")); err != nil {
+	if err := o2.Build("verif/c14/cmd", filepath.Join(bindir, "c14w-seam")); err != nil {
 		fmt.Fprintln(os.Stderr, "C14: HARNESS ERROR: the tree with the map-order seam does not build:", err)
 		return 2
 	}
-	plain, err := wpool.New(poolSize, []string{filepath.Join(d1, "bin", "c14w"), "c14worker"}, nil)
+	plain, err := wpool.New(poolSize, []string{filepath.Join(bindir, "c14w-plain"), "c14worker"}, nil)
 	if err != nil {
 		fmt.Fprintln(os.Stderr, "C14: HARNESS ERROR: cannot start workers:", err)
 		return 2
 	}
 	defer plain.Close()
-	seam, err := wpool.New(poolSize, []string{filepath.Join(d2, "bin", "c14w"), "c14worker"}, nil)
+	plain.MaxCalls = 256 // bounds what a process can accumulate; the baseline is always a brand-new process
+	seam, err := wpool.New(poolSize, []string{filepath.Join(bindir, "c14w-seam"), "c14worker"}, nil)
 	if err != nil {
 		fmt.Fprintln(os.Stderr, "C14: HARNESS ERROR: cannot start workers:", err)
 		return 2
 	}
 	defer seam.Close()
+	seam.MaxCalls = 256
 	c := &checker{r: r, plain: plain, seam: seam, scratch: scratch, deadline: deadline, watchdog: 10 * time.Minute}
 
 	r.Set("package_level_variables", vars)
@@ -381,6 +385,10 @@ func (c *checker) histories() {
 		if len(frontier) == 0 {
 			fixpointAt = depth + 1
 		}
+		if len(states) > 300 {
+			c.setCap(fmt.Sprintf("the hidden state space does not close: %d states after depth %d (every call creates new state); breadth-first search stopped", len(states), depth+1))
+			break
+		}
 	}
 	bfsStates, bfsTransitions := len(states), len(transitions)
 
@@ -394,6 +402,13 @@ func (c *checker) histories() {
 	drive.Par(total, func(i int) {
 		if c.past() {
 			c.setCap(fmt.Sprintf("internal deadline reached after %d of %d histories of length %d", atomic.LoadInt64(&done), total, maxLen))
+			return
+		}
+		failMu.Lock()
+		nf := len(failures)
+		failMu.Unlock()
+		if nf >= 200 {
+			c.setCap(fmt.Sprintf("%d failing histories found after %d of %d histories of length %d; enumeration stopped, the failures are reported", nf, atomic.LoadInt64(&done), total, maxLen))
 			return
 		}
 		calls := make([]int, maxLen)
@@ -467,15 +482,29 @@ func (c *checker) histories() {
 	}
 	reported := map[string]bool{}
 	processOnly := 0
-	for fi, f := range failures {
-		if fi >= 400 || len(reported) >= 40 {
-			break
+	seenFull := map[string]bool{}
+	processOnlySeen := map[string]bool{}
+	tried, notMinimised := 0, 0
+	for _, f := range failures {
+		full := c.histName(f)
+		if seenFull[full] {
+			continue
 		}
+		seenFull[full] = true
+		if len(f) == 1 && processOnlySeen[full] {
+			continue
+		}
+		if tried >= 150 || len(reported) >= 12 {
+			notMinimised++
+			continue
+		}
+		tried++
 		if ok, _ := differs(f); !ok {
 			// not reproducible alone in a fresh process: the difference needs the earlier histories of the same process
 			processOnly++
+			processOnlySeen[c.histName(f[len(f)-1:])] = true
 			key := fmt.Sprintf("part=histories family=fresh-converter class=needs-earlier-histories-in-the-same-process first-differing-call=%s", c.names[f[len(f)-1]])
-			r.Fail(key, "a call returned different bytes only after other histories had run in the same process (state outside the transpiler value)", nil)
+			r.Fail(key, "a call returned different bytes only after other histories had run in the same process (state that outlives the transpiler value); see the history-keyed violations for a replayable witness", nil)
 			continue
 		}
 		min := append([]int{}, f...)
@@ -494,9 +523,20 @@ func (c *checker) histories() {
 		reported[name] = true
 		ok1, obs := differs(min)
 		ok2, obs2 := differs(min)
-		if !ok1 || !ok2 || obs.Out != obs2.Out {
-			c.harness("a failing history did not reproduce identically in fresh processes: %s", name)
+		if c.harnessErr != "" {
 			return
+		}
+		if !ok1 || !ok2 || obs.Out != obs2.Out {
+			// Identical runs in brand-new processes disagree: that is the property itself
+			// (repeatability), not a harness problem - the harness replays byte-identical
+			// inputs at identical paths.
+			lc := min[len(min)-1]
+			spec, nm := c.alphabet[lc], c.names[lc]
+			r.Fail(fmt.Sprintf("part=histories call=%s symptom=not-repeatable-in-fresh-processes", nm),
+				"the same history run again in a brand-new process returns other bytes for this call", func() findings.Replay {
+					return c.replayStatistical(spec, nm, []string{obs.Script, obs2.Script})
+				})
+			continue
 		}
 		last := min[len(min)-1]
 		key := fmt.Sprintf("part=histories family=fresh-converter history=%s first-differing-call=%d:%s", name, len(min), c.names[last])
@@ -525,6 +565,7 @@ func (c *checker) histories() {
 	r.Set("package_level_variables_changed_by_calls", changed)
 	r.Set("failing_history_prefixes", len(failures))
 	r.Set("failing_only_within_a_used_process", processOnly)
+	r.Set("failing_histories_not_minimised", notMinimised)
 	r.Set("reuse_family_information", map[string]interface{}{
 		"what":            "same histories with ONE converter per target reused across calls (as tsh.go does); outside the library contract, not judged",
 		"history_length":  reuseLen,
@@ -536,7 +577,7 @@ func (c *checker) histories() {
 		r.Sample(map[string]string{"kind": "history-call", "call": c.names[i*3%nA], "class": c.baseline[i*3%nA].Class, "output_hash": c.baseline[i*3%nA].Out})
 	}
 	if fixpointAt < 0 {
-		c.setCap("the state space did not close within the history bound")
+		c.setCap("the hidden state space did not close within the history bound")
 	}
 }
 
@@ -590,10 +631,10 @@ func orders(n int, full bool) (perms []string, partial bool) {
 	return perms, factorial(n)-1 > len(perms)
 }
 
-func (c *checker) runSeam(path string, target int, overrides []string) (Obs, []choicePoint, bool) {
+func (c *checker) runSeam(path string, target int, overrides []string, fresh bool) (Obs, []choicePoint, bool) {
 	n := atomic.AddInt64(&c.seq, 1)
 	logf := filepath.Join(c.scratch, fmt.Sprintf("seamlog%d", n))
-	resp, ok := c.do(c.seam, Req{Op: "single", Single: CallSpec{Path: path, Target: target}, Seam: fmt.Sprintf("g%d;%s", n, strings.Join(overrides, ",")), SeamLog: logf}, false)
+	resp, ok := c.do(c.seam, Req{Op: "single", Single: CallSpec{Path: path, Target: target}, Seam: fmt.Sprintf("g%d;%s", n, strings.Join(overrides, ",")), SeamLog: logf}, fresh)
 	if !ok || len(resp.Obs) != 1 {
 		return Obs{}, nil, false
 	}
@@ -610,7 +651,7 @@ func (c *checker) schedules(ranges []MapRange) {
 	}
 	r.Set("map_ranges_rewritten", rewritten)
 	thorough := r.Thorough()
-	var execs, points, partialPoints, distinctOrders int64
+	var execs, points, partialPoints, distinctOrders, explained int64
 	perProg := map[string]interface{}{}
 	for _, t := range ScheduleTrees {
 		d := filepath.Join(c.scratch, "sched", t.Name)
@@ -644,7 +685,7 @@ func (c *checker) schedules(ranges []MapRange) {
 						return c.replayStatistical(CallSpec{Path: path, Target: tg}, tname+"/"+targetName(tg), scripts)
 					})
 			}
-			def, cps, ok := c.runSeam(path, target, nil)
+			def, cps, ok := c.runSeam(path, target, nil, true)
 			if !ok {
 				return
 			}
@@ -691,7 +732,7 @@ func (c *checker) schedules(ranges []MapRange) {
 					c.setCap(fmt.Sprintf("internal deadline reached in the schedule search of %s/%s after %d of %d orders", tname, targetName(tg), atomic.LoadInt64(&ran), len(jobs)))
 					return
 				}
-				o, _, ok := c.runSeam(path, tg, jobs[i].ov)
+				o, _, ok := c.runSeam(path, tg, jobs[i].ov, false)
 				if !ok {
 					return
 				}
@@ -715,15 +756,25 @@ func (c *checker) schedules(ranges []MapRange) {
 			sort.Strings(fk)
 			for _, k := range fk {
 				ov := strings.Split(failed[k], ",")
-				// confirm twice
-				o1, _, ok1 := c.runSeam(path, tg, ov)
-				o2, _, ok2 := c.runSeam(path, tg, ov)
-				if !ok1 || !ok2 {
+				// confirm twice, each time in brand-new processes (default order and the
+				// other order), so that state a long-lived worker may have accumulated
+				// cannot be mistaken for order dependence
+				d1, _, okd := c.runSeam(path, tg, nil, true)
+				o1, _, ok1 := c.runSeam(path, tg, ov, true)
+				o2, _, ok2 := c.runSeam(path, tg, ov, true)
+				if !okd || !ok1 || !ok2 {
 					return
 				}
-				if o1.Out == def.Out || o2.Out != o1.Out {
-					c.harness("an order-dependent output did not reproduce: %s %s", tname, failed[k])
-					return
+				if d1.Out != def.Out || o1.Out != o2.Out {
+					spec := CallSpec{Path: path, Target: tg}
+					r.Fail(fmt.Sprintf("part=schedules prog=%s target=%s points=%s symptom=not-repeatable-under-fixed-map-orders", tname, targetName(tg), k),
+						"with every owned map order fixed, identical runs in brand-new processes still return different bytes (an order or state source the seam does not own)",
+						func() findings.Replay { return c.replayStatistical(spec, tname+"/"+targetName(tg), nil) })
+					continue
+				}
+				if o1.Out == d1.Out {
+					atomic.AddInt64(&explained, 1) // differed only inside a used process: judged by the history search
+					continue
 				}
 				spec := CallSpec{Path: path, Target: tg}
 				r.Fail(fmt.Sprintf("part=schedules prog=%s target=%s points=%s symptom=output-depends-on-map-order", tname, targetName(tg), k),
@@ -736,6 +787,7 @@ func (c *checker) schedules(ranges []MapRange) {
 		}
 	}
 	r.Set("schedule_executions", int(execs))
+	r.Set("schedule_differences_only_inside_a_used_process", int(explained))
 	r.Set("schedule_choice_points", int(points))
 	r.Set("schedule_choice_points_partially_permuted", int(partialPoints))
 	r.Set("schedule_programs", perProg)
@@ -807,8 +859,12 @@ func (c *checker) relocation() {
 			}
 			n++
 			if obs[0].Out != obs[1].Out {
-				c.harness("relocation case %s did not reproduce identically", l.class)
-				return
+				spec := req.Single
+				r.Fail(fmt.Sprintf("part=relocation location=%s target=%s symptom=not-repeatable-in-fresh-processes", l.class, targetName(target)),
+					"two brand-new processes return different bytes for the same tree at the same place", func() findings.Replay {
+						return c.replayStatistical(CallSpec{Path: filepath.Join(base, "main.tsh"), Target: spec.Target}, "R-relocation/"+targetName(spec.Target), []string{obs[0].Script, obs[1].Script})
+					})
+				continue
 			}
 			if obs[0].Out != ref.Out {
 				ll, tg, got := l, target, obs[0]
